@@ -73,6 +73,7 @@ profile('id-reuse', PH.gen_id_reuse)
 profile('id-reuse-after-end', PH.gen_id_reuse_after_end)
 
 profile('peer-script', PP.gen_peer_script)
+profile('peer-script-grid', PP.gen_peer_script_grid, grid=True, grid_size=PP.peer_grid_size)
 
 profile('frag-grid', P.gen_frag_grid, grid=True)
 
@@ -107,9 +108,10 @@ CHECKS = {
             'oracles': {'core-ids': [O.oracle_c13], 'core': [O.oracle_c13], 'id-reuse': [PH.oracle_c13_reuse]},
             'level': 'exploration'},
     'C07': {'profiles': [('core-cancel', 2000, 80000), ('core-ends', 2000, 80000), ('core', 1000, 40000),
-                         ('peer-script', 12000, 400000), ('cut', 2000, 80000), ('cut-msg', 1000, 40000)],
+                         ('peer-script', 12000, 400000), ('peer-script-grid', 4000, 'grid'), ('cut', 2000, 80000), ('cut-msg', 1000, 40000)],
             'oracles': {'core-cancel': [O.oracle_c07], 'core-ends': [O.oracle_c07], 'core': [O.oracle_c07],
-                        'cut': [O.oracle_c07], 'cut-msg': [O.oracle_c07], 'peer-script': [PP.oracle_c07_peer]}, 'level': 'exploration'},
+                        'cut': [O.oracle_c07], 'cut-msg': [O.oracle_c07], 'peer-script': [PP.oracle_c07_peer],
+                        'peer-script-grid': [PP.oracle_c07_peer]}, 'level': 'exploration'},
     'C09': {'profiles': [('core-cancel', 4000, 150000), ('cancel-sweep', 60, 2500), ('core-lease', 1000, 40000),
                          ('rx', 3000, 100000)],
             'oracles': {'core-cancel': [O.oracle_c09], 'cancel-sweep': [O.oracle_c09], 'core-lease': [O.oracle_c09],
@@ -222,12 +224,13 @@ def jobs_for(prop, tier):
     jobs = []
     for name, quick, thorough in CHECKS[prop]['profiles']:
         n = quick if tier == 'quick' else thorough
+        size = PROFILES[name][1].get('grid_size', grid_total)
         if n == 'grid':
-            jobs.extend((name, i, None) for i in range(grid_total()))  # the whole window, every point once
+            jobs.extend((name, i, None) for i in range(size()))  # the whole window, every point once
         elif PROFILES[name][1].get('grid'):
-            # a stride through the grid that is co-prime with its period so that all (F, framing) strata are hit
-            stride = max(1, grid_total() // n)
-            while stride > 1 and grid_total() % stride == 0:
+            # a stride through the grid that is co-prime with its period so that all strata are hit
+            stride = max(1, size() // n)
+            while stride > 1 and size() % stride == 0:
                 stride += 1
             jobs.extend((name, i, {'grid_stride': stride}) for i in range(n))
         else:
@@ -304,8 +307,11 @@ MANIFEST_TEXT = {
 MANIFEST_TEXT.update({
     'C07': {'text': 'exploration: ' + _EXPL + ', over cancel-, error- and close-heavy scenario mixes. Oracle: subscriber signal '
                     'grammar on_subscribe (on_next)* (terminal)? with nothing after it, request-response awaitables resolved '
-                    'exactly once by the end of the run (the final close included), no InvalidStateError inside the library.',
-            'note': 'recording subscribers and futures of the harness; histories are sampled, not bounded-exhaustive'},
+                    'exactly once by the end of the run (the final close included), no InvalidStateError inside the library. '
+                    'Plus a bounded enumeration against a scripted peer: every sequence of up to 4 protocol-legal peer frames for each '
+                    'role x model x side (thorough: every point once; quick: a stride), with seeded local actions and connection end.',
+            'note': 'recording subscribers and futures of the harness; peer frame sequences are enumerated up to length 4, local '
+                    'actions and timings are sampled'},
     'C09': {'text': 'exploration + fault-point enumeration: seeded cancel-heavy runs, plus a cancel-moment sweep that re-runs a '
                     'base scenario once per loop iteration between the request and its termination with cancel() placed '
                     'exactly there. Oracle: one CANCEL, silence at the canceller afterwards, producer cancelled / production '
